@@ -340,8 +340,44 @@ Proof.
   - now apply trapz_mono.
 Qed.
 
+(* one sampled density assessed for several strengths (the arrays are shared by the calls): the result does not
+   increase with the strength median *)
+Lemma weight_by_cdf_antitone s1 s2 ss xs : 0 < ss -> s1 <= s2 -> forall pdf, Forall (fun p => 0 <= p) pdf ->
+  Forall2 Rle (weight_by_cdf s2 ss xs pdf) (weight_by_cdf s1 ss xs pdf).
+Proof.
+  intros Hs H12. induction xs as [|x xs IH]; intros [|p pdf] Hp; simpl; try constructor.
+  - inversion Hp; subst. apply Rmult_le_compat_l; [assumption|]. unfold norm_cdf.
+    destruct (Req_dec s1 s2) as [->|Hne]; [lra|]. left. apply Phi_strictly_increasing.
+    unfold Rdiv. apply Rmult_lt_compat_r; [now apply Rinv_0_lt_compat | lra].
+  - inversion Hp; subst. now apply IH.
+Qed.
+
+Theorem pf_arbitrary_model_decreasing_in_strength sm1 sm2 ss xs pdf :
+  0 < ss -> 0 < sm1 -> sm1 <= sm2 -> ascending xs -> Forall (fun p => 0 <= p) pdf ->
+  pf_arbitrary_model sm2 ss xs pdf <= pf_arbitrary_model sm1 ss xs pdf.
+Proof.
+  intros Hs H1 H12 Ha Hp. unfold pf_arbitrary_model. apply trapz_mono; [assumption|].
+  apply weight_by_cdf_antitone; try assumption.
+  destruct H12 as [H12| ->]; [left; now apply log10R_increasing | lra].
+Qed.
+
+(* the hypothesis `ascending` of pf_arbitrary_model_bounds cannot be dropped: the trapezoid sum is an oriented integral,
+   on a descending grid the model (= what the implementation computes) is negative *)
+Theorem pf_arbitrary_model_range_refuted_descending :
+  exists sm ss xs pdf, 0 < sm /\ 0 < ss /\ length xs = length pdf /\ Forall (fun p => 0 <= p) pdf /\
+                       pf_arbitrary_model sm ss xs pdf < 0.
+Proof.
+  exists 1, 1, [1; 0], [1; 1]. repeat split; try lra; [repeat constructor; lra|].
+  unfold pf_arbitrary_model. simpl. unfold norm_cdf.
+  generalize (Phi_in_0_1 ((1 - log10R 1) / 1)) (Phi_in_0_1 ((0 - log10R 1) / 1)). intros [A _] [B _]. lra.
+Qed.
+
 Example pf_arbitrary_model_bounds_satisfiable :
   ascending [1; 2; 3] /\ length [1; 2; 3] = length [0; 1; 0] /\ Forall (fun p => 0 <= p) [0; 1; 0].
+Proof. repeat split; repeat constructor; lra. Qed.
+
+Example pf_arbitrary_model_decreasing_satisfiable :
+  0 < 1/20 /\ 0 < 100 /\ 100 <= 125 /\ ascending [1; 2; 3] /\ Forall (fun p => 0 <= p) [0; 1; 0].
 Proof. repeat split; repeat constructor; lra. Qed.
 
 (* the hypothesis of pf_norm_load_closed_form_partial is satisfiable (trivially for eps = 1: both sides lie in (0,1)) *)
